@@ -18,6 +18,9 @@ RULE = ('mask cases = (card number of every length 10..40, digits or arbitrary c
 ASSUMPTIONS = ['vmon/ref/codec.py encoder builds the wire image (masking is decode-side only)', 'vmon/ref/blocking.py for the IpmReader route']
 
 
+SPECIAL = ['\n', '\r', '\t', '\x00', '\x0b', '\x0c', '\x1c', '\x7f', '\x85', '\xa0', '\u2028', '\u2029', ' ', '\\', '$', '^', '.', '*', '{', '%']
+
+
 def prepare(ctx):
     from cardutil import iso8583, card, mciipm
     from cardutil.config import config
@@ -40,9 +43,20 @@ def cases(ctx):
                         pan = ''.join(r.choice('0123456789') for _ in range(n)) if kind == 'digits' else \
                             ''.join(chr(r.randint(0x21, 0xff)) for _ in range(n))
                         yield {'kind': 'mask', 'pan': pan, 'ch': ch}
+    # characters that text tools treat specially (line ends, NUL, regex and format metacharacters), at every kind of position
+    for n in range(10, 41):
+        for sp in SPECIAL:
+            for pos in sorted({0, 5, 6, 7, n // 2, n - 5, n - 4, n - 1}):
+                i += 1
+                if ctx.mine(i):
+                    r = ctx.rng('special', n, sp, pos)
+                    digits = [r.choice('0123456789') for _ in range(n)]
+                    digits[pos] = sp
+                    yield {'kind': 'mask', 'pan': ''.join(digits), 'ch': '*' if (n + pos) % 2 else r.choice('X#0 '), 'special': True}
     if ctx.shard == 0:
         ctx.exhaustive_subspace('mask(): every length 10..40 x {digits, arbitrary} x %d mask characters' % len(chars),
                                 31 * 2 * len(chars))
+        ctx.exhaustive_subspace('mask(): every length 10..40 x %d special characters x 8 positions' % len(SPECIAL), 31 * len(SPECIAL) * 8)
     # decode under masking configurations: the processor on each variable text element of the packaged configuration in turn
     base = msgwork.cfg_of('packaged')
     var_text = [b for b in gen.data_bits(base) if base[str(b)]['field_type'] != 'FIXED'
@@ -50,7 +64,7 @@ def cases(ctx):
     # the statement says "a field configured for PAN masking": fixed-width text elements wide enough for a card number too
     var_text += [b for b in gen.data_bits(base) if base[str(b)]['field_type'] == 'FIXED' and base[str(b)]['field_length'] >= 12
                  and not base[str(b)].get('field_processor') and gen.is_text(base[str(b)])]
-    per = 6 if ctx.tier == 'quick' else 600
+    per = 8 if ctx.tier == 'quick' else 600
     for b in var_text:
         for proc in ('PAN', 'PAN-PREFIX'):
             for enc in ('latin_1', 'cp500'):
@@ -85,6 +99,8 @@ def judge(ctx, case):
 def judge_mask(ctx, case):
     pan, ch = case['pan'], case['ch']
     ctx.case_done(case)
+    if case.get('special'):
+        ctx.count('mask calls on numbers holding a special character')
     ctx.seen('card number lengths masked', len(pan))
     if ch == '*':
         kind, out = ctx.call(ctx.card.mask, pan, budget=20000)
@@ -150,7 +166,7 @@ def judge_decode(ctx, case):
         n = cfg[str(b)]['field_length']
         ctx.count('fixed-width elements carrying a masking processor')
     pan = ''.join(rng.choice('0123456789') for _ in range(n))
-    shape = case['salt'] % 5
+    shape = case['salt'] % 8
     if shape == 3 and n >= 16:
         # "every card number of 10 or more characters": grouped with separators, or carrying letters
         sep = rng.choice(' -')
@@ -159,6 +175,12 @@ def judge_decode(ctx, case):
     elif shape == 4 and n >= 14:
         pan = ''.join(ch if k % 3 else rng.choice('ABCDEFGH') for k, ch in enumerate(pan))
         ctx.count('card numbers with letters decoded')
+    elif shape in (5, 6) and n >= 12:
+        # a line end or another control character inside the value (x'0A' in Latin-1, x'25' in EBCDIC): still a value to mask
+        sp = rng.choice('\n\n\r\t\x00\x0b\x0c')
+        at = rng.randint(6, n - 5) if shape == 5 else rng.choice([n - 1, n - 4, 0, 5])
+        pan = pan[:at] + sp + pan[at + 1:]
+        ctx.count('card numbers with a control character decoded')
     msg = {'MTI': '1240', 'DE%d' % b: pan}
     # other elements: letters only (cannot coincide with the PAN's digits)
     for ob in rng.sample(gen.data_bits(cfg), min(5, len(gen.data_bits(cfg)))):
@@ -238,7 +260,8 @@ def require(m):
     reasons = []
     if set(m['classes'].get('card number lengths masked', ())) != set(range(10, 41)):
         reasons.append('mask(): lengths 10..40 not all driven')
-    for need in ('card numbers with separators decoded', 'card numbers with letters decoded',
+    for need in ('card numbers with separators decoded', 'card numbers with letters decoded', 'card numbers with a control character decoded',
+                 'mask calls on numbers holding a special character',
                  'decodes after masking was switched on in an already used configuration object'):
         if not m['counters'].get(need):
             reasons.append('never driven: ' + need)
